@@ -673,8 +673,8 @@ def words_and_reduce(ctx, quick):
     levels = [1, 2, "1+ab", "1+aab"] if quick else [1, 2, 3, "1+ab", "1+aab", "1+ab+aab", "2+aab", "1+abb+ab", "2+aabb", "1+b+bb"]
     for ao, ai, bo, bi in itertools.product(range(1, top + 1), repeat=4):
         for k in levels:
-            if k == 3 and (ao - 1) * ai + (bo - 1) * bi > 9:
-                continue
+            if (k == 3 or (isinstance(k, str) and len(k) >= 6)) and (ao - 1) * ai + (bo - 1) * bi > 9:
+                continue  # word lists of several thousand words: small alphabets only
             check_words(ctx, ao, ai, bo, bi, k)
     # random words over a small alphabet (identity symbols included), lengths 0..7
     batch = []
@@ -1082,10 +1082,21 @@ def _generic_game(rng, shape):
             return prob, pred
 
 
+def _chunks(strategies, size=30):
+    """tasks stay well below the per-task timeout of the pool (an embedding into a 2000-constraint problem takes ~0.5 s)"""
+    return [strategies[i:i + size] for i in range(0, len(strategies), size)] or [[]]
+
+
 def embed_tasks(ctx, quick):
     rng = ctx.rng
     cap = 36 if quick else 400
     npa, ns = [], []
+
+    def add_npa(base, k, shape, n_quantum):
+        seeds = [int(t) for t in rng.integers(0, 2 ** 31, size=n_quantum)]
+        for n, chunk in enumerate(_chunks(_pick_strategies(rng, shape, cap))):
+            npa.append({**base, "k": k, "strategies": chunk, "quantum_seeds": seeds if n == 0 else []})
+
     for shape in EMBED_SHAPES:
         ao, bo, ai, bi = shape
         games = []
@@ -1101,15 +1112,14 @@ def embed_tasks(ctx, quick):
             for k in (1, "1+ab", 2):
                 if quick and k == 2 and shape == (3, 3, 3, 3) and kind != "generic":
                     continue
-                npa.append({**base, "k": k, "strategies": _pick_strategies(rng, shape, cap),
-                            "quantum_seeds": [int(t) for t in rng.integers(0, 2 ** 31, size=2 if quick else 6)]})
-            ns.append({**base, "strategies": _pick_strategies(rng, shape, cap)})
+                add_npa(base, k, shape, 2 if quick else 6)
+            for chunk in _chunks(_pick_strategies(rng, shape, cap), 100):
+                ns.append({**base, "strategies": chunk})
     if not quick:
         for k in ("1+aab", "1+ab+aab"):
             for shape in ((2, 3, 2, 2), (3, 2, 2, 3)):
                 prob, pred = _generic_game(rng, shape)
-                npa.append({"shape": list(shape), "kind": "generic", "prob": prob.reshape(-1).tolist(), "pred": pred.reshape(-1).tolist(), "k": k,
-                            "strategies": _pick_strategies(rng, shape, cap), "quantum_seeds": [int(t) for t in rng.integers(0, 2 ** 31, size=4)]})
+                add_npa({"shape": list(shape), "kind": "generic", "prob": prob.reshape(-1).tolist(), "pred": pred.reshape(-1).tolist()}, k, shape, 4)
     return npa, ns
 
 
